@@ -54,9 +54,10 @@ Theorem established_undisturbed : forall es s k c,
   nth_error (i_conns s) k = Some c -> nth_error (i_conns (final s es)) k = Some c.
 Proof.
   induction es as [|e es IH]; intros s k c H; cbn [final]; [exact H|].
-  apply IH. destruct e as [|good i|j]; cbn [istep fst i_conns].
+  apply IH. destruct e as [|good i|j|wc]; cbn [istep fst i_conns].
   - rewrite nth_error_app1; [exact H|]. apply nth_error_Some. rewrite H. discriminate.
   - destruct good; exact H.
+  - exact H.
   - exact H.
 Qed.
 
@@ -72,9 +73,17 @@ Theorem handshake_sees_latest : forall es s,
   i_cur (final s es) = last_reload (i_cur s) es.
 Proof.
   induction es as [|e es IH]; intros s; cbn [final last_reload]; [reflexivity|].
-  rewrite IH. destruct e as [|good i|j]; cbn [istep fst i_cur]; try reflexivity.
+  rewrite IH. destruct e as [|good i|j|wc]; cbn [istep fst i_cur]; try reflexivity.
   destruct good; reflexivity.
 Qed.
+
+(* a returning client (session cache from an earlier connection) gets no more and sees nothing older than a
+   new client: it is admitted iff the identity installed by the last successful reload admits its certificate,
+   and it sees that identity's certificate *)
+Theorem returning_sees_latest es s wc :
+  let cur := last_reload (i_cur s) es in
+  snd (istep (final s es) (IReturning wc)) = if negb (snd cur) || wc then [1; fst cur] else [0].
+Proof. cbv zeta. rewrite <- handshake_sees_latest. reflexivity. Qed.
 
 Theorem handshake_output s : snd (istep s IHandshake) = [1; fst (i_cur s); b2n (snd (i_cur s))].
 Proof. reflexivity. Qed.
